@@ -604,6 +604,25 @@ def update_scenarios_exhaustive(tier):
             g['events'] = evs
             out.append({'groups': by() + [g], 'added': ['n1'], 'args': [], 'corrupt': False,
                         'label': 'pool-type-and-subtype:%s:%s' % (fate, ','.join(evs))})
+    # the edit is the subscription list: supertype + subtype pairs in both directions
+    SUBS = [(['PROCESS_STATE_RUNNING'], ['PROCESS_STATE', 'PROCESS_STATE_RUNNING']),
+            (['PROCESS_STATE', 'PROCESS_STATE_RUNNING'], ['PROCESS_STATE_RUNNING']),
+            (['PROCESS_STATE'], ['PROCESS_STATE_EXITED', 'PROCESS_STATE']),
+            (['TICK_5'], ['TICK', 'TICK_5']), (['TICK', 'TICK_5'], ['TICK_60']),
+            (['PROCESS_LOG_STDOUT'], ['PROCESS_LOG', 'PROCESS_LOG_STDOUT']), (['PROCESS_LOG'], ['PROCESS_LOG_STDERR']),
+            (['TICK_5'], ['EVENT', 'TICK_5']), (['EVENT'], ['PROCESS_COMMUNICATION', 'SUPERVISOR_STATE_CHANGE']),
+            (['PROCESS_COMMUNICATION_STDOUT'], ['PROCESS_COMMUNICATION_STDOUT', 'PROCESS_COMMUNICATION']),
+            (['PROCESS_GROUP_ADDED'], ['PROCESS_GROUP', 'PROCESS_GROUP_ADDED', 'PROCESS_STATE_STARTING'])]
+    for k, (e0, e1) in enumerate(SUBS):
+        g = _g('t', 'listener', 'change', [_m('t', 'running' if k % 2 else 'stopped')])
+        g['events'] = e0
+        g['events_new'] = e1
+        g['change_opt'] = 'none'
+        out.append({'groups': by() + [g], 'added': [], 'args': [], 'corrupt': False,
+                    'label': 'subscriptions:%s->%s' % (','.join(e0), ','.join(e1))})
+        g2 = _g('t', 'listener', 'keep', [_m('t', 'running')])
+        g2['events'] = e1
+        out.append({'groups': [g2], 'added': ['n1'], 'args': [], 'corrupt': False, 'label': 'subscriptions-kept:%s' % ','.join(e1)})
     # first update meets a STOPPING process in a changed/removed group (refused, known finding); the
     # child then exits and a second update must converge; meanwhile the refused pool stays subscribed
     for kind in ('listener', 'program', 'group'):
